@@ -7,11 +7,20 @@ import (
 
 	"github.com/herohde/morlock/pkg/board"
 	"verif/bridge"
+	"verif/corpus"
 	"verif/harness"
 	"verif/ref"
 )
 
 func init() {
+	Replayers["C08/heavy"] = func(data json.RawMessage) (bool, string) {
+		c := harness.New("C08", "quick", "seq")
+		heavyUse(c)
+		if c.NumViolations() > 0 {
+			return true, "the long-lived-board family reports violations again"
+		}
+		return false, ""
+	}
 	Checks["C08"] = checkC08
 	Replayers["C08/word"] = func(data json.RawMessage) (bool, string) {
 		var d struct {
@@ -207,7 +216,7 @@ func among(texts ...string) func(g *ref.Game, mv ref.Move) bool {
 func checkC08(c *harness.Check) {
 	mustAnchors(c)
 	depth := c.Pick(8, 10)
-	c.Rule = fmt.Sprintf("all operation words of length <= %d over {push m (root-specific alphabet of <=4 moves incl. castling, e.p., promotion, captures, shuffles; roots incl. two set up with full-move number 0 and one whose boards use the zero-value Zobrist table under which every position hashes to 0), pop (never below a fork point), fork (<=3 live boards), switch i}; every word is replayed on fresh real boards and after its last operation EVERY live board's getters (position, side, clock, ply, full moves, has-castled x2, last and second-to-last move, HasMoved(1/2/all), hash vs scratch, not-drawn result) are compared with the reference multi-board model; after a push the draw oracle of C05 runs on that board. The forks an engine hands out (Engine.Board) on seven games incl. drawn ones: moves, take-backs and adjudication on them leave the engine's game untouched and vice versa. distinct_nontrivial = distinct canonical states (sorted model snapshots of all live boards)", depth)
+	c.Rule = fmt.Sprintf("all operation words of length <= %d over {push m (root-specific alphabet of <=4 moves incl. castling, e.p., promotion, captures, shuffles; roots incl. two set up with full-move number 0 and one whose boards use the zero-value Zobrist table under which every position hashes to 0), pop (never below a fork point), fork (<=3 live boards), switch i}; every word is replayed on fresh real boards and after its last operation EVERY live board's getters (position, side, clock, ply, full moves, has-castled x2, last and second-to-last move, HasMoved(1/2/all), hash vs scratch, not-drawn result) are compared with the reference multi-board model; after a push the draw oracle of C05 runs on that board. A long-lived board: after a complete 4-ply walk from the start position (about 200 000 pushes and pops, over 70 000 distinct positions) on the board itself / on a fork of it, everything reported is unchanged and the knight shuffle played before the walk, repeated after it, is reported as a three-fold repetition. The forks an engine hands out (Engine.Board) on seven games incl. drawn ones: moves, take-backs and adjudication on them leave the engine's game untouched and vice versa. distinct_nontrivial = distinct canonical states (sorted model snapshots of all live boards)", depth)
 	roots := []c08root{
 		{"k7/p7/P7/8/8/7p/7P/7K w - - 0 1", among("h1g1", "g1h1", "a8b8", "b8a8"), "shuffle: repetition across forks"},
 		{"r3k2r/8/8/8/8/8/8/R3K2R w KQkq - 0 1", among("e1g1", "e1c1", "e8g8", "e8c8", "h1g1", "a8b8", "g1h1", "b8a8"), "castling flags"},
@@ -292,7 +301,87 @@ func checkC08(c *harness.Check) {
 		rec(j.word)
 	})
 	engineForks(c)
+	heavyUse(c)
 	c.Finish()
+}
+
+// heavyUse: a board is long-lived - a search plays and takes back hundreds of thousands of moves on
+// it (or on a fork of it) between two moves of the game. A board that has been through a complete
+// 4-ply walk (some 200 000 pushes and pops, over 70 000 distinct positions) must report exactly what
+// it reported before, and the game must go on as on a board that never saw the walk: the knight
+// shuffle played before the walk is repeated after it and the third occurrence must be reported.
+func heavyUse(c *harness.Check) {
+	shuffle := []string{"g1f3", "g8f6", "f3g1", "f6g8"}
+	for _, onFork := range []bool{false, true} {
+		what := map[bool]string{false: "on the board itself", true: "on a fork of it"}[onFork]
+		b := bridge.NewBoard(corpus.Initial, 0)
+		g, _ := ref.GameFromFEN(corpus.Initial)
+		play := func(bb *board.Board, t string) bool {
+			m, ok := bridge.FindImpl(bb.Position(), bb.Turn(), t)
+			return ok && bb.PushMove(m)
+		}
+		for _, t := range shuffle {
+			rm, _ := g.Cur().FindMove(t)
+			if !play(b, t) {
+				c.Violation("C08/heavy-use setup", "cannot play "+t, "C08/heavy", nil)
+				return
+			}
+			g.Push(rm)
+		}
+		before := bridge.Snapshot(b, true)
+		w := b
+		if onFork {
+			w = b.Fork()
+		}
+		var pushes int64
+		var walk func(d int)
+		walk = func(d int) {
+			if d == 0 {
+				return
+			}
+			for _, m := range w.Position().PseudoLegalMoves(w.Turn()) {
+				if w.PushMove(m) {
+					pushes++
+					walk(d - 1)
+					w.PopMove()
+				}
+			}
+		}
+		walk(4)
+		c.Transitions.Add(2 * pushes)
+		c.Evaluations.Add(1)
+		c.SetExtra("heavy_use_pushes_per_walk", pushes)
+		if after := bridge.Snapshot(b, true); after != before {
+			c.Violation("C08/heavy-use "+what, fmt.Sprintf("after a complete 4-ply walk %s (every move taken back) the board reports\n      %s\n    before the walk it reported\n      %s", what, after, before), "C08/heavy", nil)
+			continue
+		}
+		if onFork {
+			if after := bridge.Snapshot(w, true); after != before {
+				c.Violation("C08/heavy-use fork", fmt.Sprintf("after a complete 4-ply walk on it (every move taken back) the fork reports\n      %s\n    the original\n      %s", after, before), "C08/heavy", nil)
+				continue
+			}
+		}
+		// the game goes on, on the original and on the fork that was walked
+		boards := []*board.Board{b}
+		if onFork {
+			boards = append(boards, w)
+		}
+		for bi, bb := range boards {
+			gg := g.Clone()
+			for i, t := range shuffle {
+				rm, _ := gg.Cur().FindMove(t)
+				if !play(bb, t) {
+					c.Violation("C08/heavy-use "+what, fmt.Sprintf("after the walk %s the move %s is refused", what, t), "C08/heavy", nil)
+					break
+				}
+				gg.Push(rm)
+				if cls, msg := c05Oracle(bb, gg); msg != "" {
+					c.Violation("C08/heavy-use "+cls+" "+what, fmt.Sprintf("the game goes on after a complete 4-ply walk %s (board %d of %d, move %d of the repeated shuffle): %s", what, bi+1, len(boards), i+1, msg), "C08/heavy", nil)
+					break
+				}
+			}
+		}
+	}
 }
 
 func sortStrings(s []string) {
